@@ -412,8 +412,8 @@ func ruleThunkTypeAgree(c *Ctx) {
 			c.Check(same, "thunk.type-agree", fmt.Sprintf("%s/recogniser#%d", c.P.funcKey(f), k), c.P.Pos(ta.Pos()), "asserts the registered type", "a lazy CTE is looked for as "+ta.AssertedType.String()+" but is stored as "+regT.String()+": this recogniser never matches")
 		})
 	}
-	if n < 5 {
-		c.Unknown("thunk.type-agree", "recognisers", "-", fmt.Sprintf("only %d lazy-CTE recognisers found", n))
+	if n == 0 {
+		c.Unknown("thunk.type-agree", "recognisers", "-", "no lazy-CTE recogniser found: nothing evaluates a CTE")
 	}
 }
 
